@@ -83,6 +83,23 @@ fn plant_strays(dir: &Path, r: &mut Rng, some_id: &Id) -> usize {
             n += 1;
         }
     }
+    // sibling directories whose names merely START with a type directory's name, holding id-named files (a backup copy
+    // someone left next to the repository): a prefix listing would pick them up
+    for (dname, sub) in [("snapshots.bak", ""), ("index-old", ""), ("keys2", ""), ("data.orig", &hex[..2]), ("data2", &hex[..2]), ("config.d", "")] {
+        if r.chance(1, 2) {
+            let d = if sub.is_empty() { dir.join(dname) } else { dir.join(dname).join(sub) };
+            if std::fs::create_dir_all(&d).is_ok() && std::fs::write(d.join(&hex), b"foreign copy").is_ok() {
+                n += 1;
+            }
+            let mut b = [0u8; 32];
+            r.fill(&mut b);
+            let other = hex::encode(b);
+            let d2 = if sub.is_empty() { dir.join(dname) } else { dir.join(dname).join(&other[..2]) };
+            if std::fs::create_dir_all(&d2).is_ok() && std::fs::write(d2.join(&other), b"foreign file").is_ok() {
+                n += 1;
+            }
+        }
+    }
     n
 }
 
